@@ -13,7 +13,6 @@ package c10
 import (
 	"archive/tar"
 	"bytes"
-	"context"
 	"crypto/sha256"
 	"fmt"
 	"io"
@@ -28,7 +27,6 @@ import (
 	"time"
 
 	"github.com/quay/claircore"
-	"github.com/quay/claircore/libindex"
 )
 
 const mediaType = "application/vnd.oci.image.layer.v1.tar"
@@ -356,7 +354,3 @@ func runFinalizers() {
 		}
 	}
 }
-
-var _ = context.Background
-var _ sync.Mutex
-var _ = libindex.NewRemoteFetchArena
